@@ -24,6 +24,7 @@ import (
 	"github.com/pkg/sftp"
 
 	"verifharness/lib"
+	"verifharness/wire"
 )
 
 // ---------- client options ----------
@@ -527,6 +528,7 @@ type xfReal struct {
 	OS    *sftp.Server
 	RS    *sftp.RequestServer
 	Mem   *xfMemFS
+	Tap   *xfFrameTap // every request frame the server has read (type and first string field)
 	Dir   string
 	done  chan struct{}
 	s2cW  *io.PipeWriter
@@ -547,8 +549,8 @@ func (r xfRWC) Close() error { r.closeRead(); return r.WriteCloser.Close() }
 func xfStartPair(spec xfSrvSpec, cfg xfCfg, dir string) (*xfReal, error) {
 	c2sR, c2sW := io.Pipe()
 	s2cR, s2cW := io.Pipe()
-	p := &xfReal{Spec: spec, Dir: dir, done: make(chan struct{}), s2cW: s2cW, c2sR: c2sR}
-	rwc := xfRWC{Reader: c2sR, WriteCloser: s2cW, closeRead: func() { c2sR.Close() }}
+	p := &xfReal{Spec: spec, Dir: dir, done: make(chan struct{}), s2cW: s2cW, c2sR: c2sR, Tap: &xfFrameTap{}}
+	rwc := xfRWC{Reader: io.TeeReader(c2sR, p.Tap), WriteCloser: s2cW, closeRead: func() { c2sR.Close() }}
 	switch spec.Kind {
 	case "os":
 		var so []sftp.ServerOption
@@ -573,6 +575,7 @@ func xfStartPair(spec xfSrvSpec, cfg xfCfg, dir string) (*xfReal, error) {
 			ro = append(ro, sftp.WithRSMaxTxPacket(spec.MaxTx))
 		}
 		p.Mem = xfNewMemFS()
+		p.Mem.tap = p.Tap
 		rs := sftp.NewRequestServer(rwc, p.Mem.Handlers(), ro...)
 		p.RS = rs
 		go func() { rs.Serve(); s2cW.Close(); close(p.done) }()
@@ -653,6 +656,27 @@ type xfMemFS struct {
 	Closes  int
 	limit   int64     // > 0: a non-empty WriteAt reaching beyond this offset is refused (nothing is stored)
 	applied []xfChunk // WriteAt calls that were stored
+	// What a NAME shows once it no longer refers to the file that was opened under it (see xfNameView). The data of
+	// the open file stays where the handles find it; STAT/LSTAT of the path answer from the view, FSTAT of a handle
+	// does not. The request server hands both to Filelist as Method "Stat" with the same path, so the kind of the
+	// request is taken from the frame tap (the server has read the frame before it calls the handler; the callers
+	// that use views issue one such request at a time).
+	views map[string]xfNameView
+	tap   *xfFrameTap
+}
+
+// SetNameView installs (or with Kind "" / "same" removes) the view of a path.
+func (m *xfMemFS) SetNameView(p string, v xfNameView) {
+	m.mu.Lock()
+	defer m.mu.Unlock()
+	if v.Kind == "" || v.Kind == "same" {
+		delete(m.views, p)
+		return
+	}
+	if m.views == nil {
+		m.views = map[string]xfNameView{}
+	}
+	m.views[p] = v
 }
 
 var xfErrQuota = errors.New("quota exceeded (injected)")
@@ -811,13 +835,19 @@ func (m *xfMemFS) Filecmd(r *sftp.Request) error {
 type xfMemInfo struct {
 	name string
 	size int64
+	mode os.FileMode // 0: a regular file, 0644
 }
 
-func (i xfMemInfo) Name() string       { return i.name }
-func (i xfMemInfo) Size() int64        { return i.size }
-func (i xfMemInfo) Mode() os.FileMode  { return 0o644 }
+func (i xfMemInfo) Name() string { return i.name }
+func (i xfMemInfo) Size() int64  { return i.size }
+func (i xfMemInfo) Mode() os.FileMode {
+	if i.mode == 0 {
+		return 0o644
+	}
+	return i.mode
+}
 func (i xfMemInfo) ModTime() time.Time { return time.Unix(1_000_000_000, 0) }
-func (i xfMemInfo) IsDir() bool        { return false }
+func (i xfMemInfo) IsDir() bool        { return i.mode.IsDir() }
 func (i xfMemInfo) Sys() any           { return nil }
 
 type xfMemList []os.FileInfo
@@ -838,19 +868,147 @@ func (m *xfMemFS) Filelist(r *sftp.Request) (sftp.ListerAt, error) {
 	defer m.mu.Unlock()
 	switch r.Method {
 	case "Stat", "Lstat":
+		if v, ok := m.views[r.Filepath]; ok && !(m.tap != nil && m.tap.LastStat() == wire.Fstat) {
+			// (without an LstatFileLister the request server turns LSTAT into Method "Stat" as well)
+			size, mode, exists := v.Attrs(m.tap != nil && m.tap.LastStat() == wire.Lstat)
+			if !exists {
+				return nil, os.ErrNotExist
+			}
+			return xfMemList{xfMemInfo{filepath.Base(r.Filepath), size, mode}}, nil
+		}
 		f, ok := m.files[r.Filepath]
 		if !ok {
 			return nil, os.ErrNotExist
 		}
-		return xfMemList{xfMemInfo{filepath.Base(r.Filepath), int64(len(f))}}, nil
+		return xfMemList{xfMemInfo{name: filepath.Base(r.Filepath), size: int64(len(f))}}, nil
 	case "List":
 		var l xfMemList
 		for p, f := range m.files {
-			l = append(l, xfMemInfo{filepath.Base(p), int64(len(f))})
+			l = append(l, xfMemInfo{name: filepath.Base(p), size: int64(len(f))})
 		}
 		return l, nil
 	}
 	return nil, sftp.ErrSSHFxOpUnsupported
+}
+
+// ---------- a name that no longer refers to the open file ----------
+
+// xfNameView is what the path a File was opened with shows after the name was disturbed while the handle stays
+// open: Kind "same" (or ""): still the open file; "gone": nothing there (renamed away, removed, dangling link);
+// "file": another regular file of Size bytes (rotated, replaced, or a link to one); "dir": a directory.
+// Link: the name itself is a symbolic link (LSTAT shows the link).
+type xfNameView struct {
+	Kind string `json:"kind"`
+	Size int64  `json:"size,omitempty"`
+	Link bool   `json:"link,omitempty"`
+}
+
+// Attrs gives size, mode and existence as STAT (lstat: LSTAT) of the name reports them.
+func (v xfNameView) Attrs(lstat bool) (size int64, mode os.FileMode, exists bool) {
+	if lstat && v.Link {
+		return 9, os.ModeSymlink | 0o777, true
+	}
+	switch v.Kind {
+	case "file":
+		return v.Size, 0o644, true
+	case "dir":
+		return 4096, os.ModeDir | 0o755, true
+	}
+	return 0, 0, false
+}
+
+// ---------- the requests a real server has read ----------
+
+type xfTapRec struct {
+	Typ byte
+	Str string // the first string field after the id (handle, path or extension name); "" if none
+}
+
+// xfFrameTap is fed (io.TeeReader) with everything a server reads from its client. It splits the stream into
+// frames and records type and first string field of each. A frame is recorded when its last byte has passed,
+// i.e. before the server can act on it.
+type xfFrameTap struct {
+	mu       sync.Mutex
+	lenBuf   []byte
+	left     int // bytes of the current frame body still to come
+	head     []byte
+	inBody   bool
+	recs     []xfTapRec
+	lastStat byte
+}
+
+const xfTapKeep = 1024
+
+func (t *xfFrameTap) Write(p []byte) (int, error) {
+	t.mu.Lock()
+	defer t.mu.Unlock()
+	n := len(p)
+	for len(p) > 0 {
+		if !t.inBody {
+			k := 4 - len(t.lenBuf)
+			if k > len(p) {
+				k = len(p)
+			}
+			t.lenBuf = append(t.lenBuf, p[:k]...)
+			p = p[k:]
+			if len(t.lenBuf) < 4 {
+				break
+			}
+			t.left = int(uint32(t.lenBuf[0])<<24 | uint32(t.lenBuf[1])<<16 | uint32(t.lenBuf[2])<<8 | uint32(t.lenBuf[3]))
+			t.lenBuf, t.head, t.inBody = t.lenBuf[:0], t.head[:0], true
+			if t.left == 0 {
+				t.inBody = false
+			}
+			continue
+		}
+		k := t.left
+		if k > len(p) {
+			k = len(p)
+		}
+		if room := xfTapKeep - len(t.head); room > 0 {
+			t.head = append(t.head, p[:min(k, room)]...)
+		}
+		p = p[k:]
+		if t.left -= k; t.left == 0 {
+			t.inBody = false
+			t.record()
+		}
+	}
+	return n, nil
+}
+
+func (t *xfFrameTap) record() {
+	h := t.head
+	if len(h) == 0 {
+		return
+	}
+	rec := xfTapRec{Typ: h[0]}
+	if h[0] != wire.Init && len(h) >= 9 {
+		l := int(uint32(h[5])<<24 | uint32(h[6])<<16 | uint32(h[7])<<8 | uint32(h[8]))
+		if l >= 0 && 9+l <= len(h) {
+			rec.Str = string(h[9 : 9+l])
+		}
+	}
+	switch rec.Typ {
+	case wire.Stat, wire.Lstat, wire.Fstat:
+		t.lastStat = rec.Typ
+	}
+	if len(t.recs) >= 4096 {
+		t.recs = append(t.recs[:0], t.recs[2048:]...)
+	}
+	t.recs = append(t.recs, rec)
+}
+
+// LastStat is the type of the latest STAT, LSTAT or FSTAT frame (0: none yet).
+func (t *xfFrameTap) LastStat() byte { t.mu.Lock(); defer t.mu.Unlock(); return t.lastStat }
+
+// Take returns and clears the frames recorded since the last call.
+func (t *xfFrameTap) Take() []xfTapRec {
+	t.mu.Lock()
+	defer t.mu.Unlock()
+	r := t.recs
+	t.recs = nil
+	return r
 }
 
 // ---------- running calls with a liveness deadline ----------
